@@ -1,0 +1,18 @@
+//go:build !verif
+
+package tls
+
+// Stubs of the verification hooks (see verif_hooks_on.go, build tag "verif").
+// With the tag off they are empty and inlinable.
+
+type verifConnState struct{}
+
+func (c *Conn) verifRewriteOut(msg handshakeMessage, data []byte) []byte    { return data }
+func (c *Conn) verifClientVersions(ch *clientHelloMsg, v []uint16) []uint16 { return v }
+func (c *Conn) verifCanary(random []byte)                                   {}
+func (c *Conn) verifPickSuite12(s *cipherSuite) *cipherSuite                { return s }
+func (c *Conn) verifPickSuite13(s *cipherSuiteTLS13) *cipherSuiteTLS13      { return s }
+func (c *Conn) verifSelectGroup(g CurveID) CurveID                          { return g }
+func (c *Conn) verifSecondHello(ch *clientHelloMsg)                         {}
+func (c *Conn) verifReadClientEE(transcript transcriptHash) error           { return nil }
+func (c *Conn) verifYield(point string)                                     {}
